@@ -98,11 +98,18 @@ class C16(Prop):
             "Newton inverse vs bisection inverse within the solver's own tolerance 2(tol + rtol|s|); oracle: the "
             "property's identities evaluated on the real code (oddness, monotonicity with slope >= 1/E, central "
             "difference vs tangential compliance, Masing doubling, hysteresis reversal point, Hooke round trips and "
-            "plane/3D agreement, moduli, true-stress/strain inverses, array vs scalar).")
+            "plane/3D agreement, moduli, true-stress/strain inverses; array (and list) input = element-wise scalar input for "
+            "EVERY function of the three files incl. result shapes, the per-element guard of lower_hysteresis, the "
+            "shape-consistency ValueError of the Hooke classes, the keyword tolerances of stress()).  If the translator "
+            "cannot express the source, that is said, K is skipped (the generated model is stale) and the oracle alone "
+            "searches for a failing input.")
     ASSUMPTIONS = [
         "translator T (translate/translate.py) for rambgood.py / hookeslaw.py / true_stress_strain.py: assumed to "
         "preserve meaning on its whitelisted subset; validated on every run by K (generated definitions at Float vs "
-        "the real functions), not verified",
+        "the real functions), not verified; np.log1p / np.expm1 are translated to np_log1p / np_expm1 of "
+        "Generated/Prelude.lean (Kahan's compensated form at Float, proved equal to log(1+x) / exp x - 1 over the reals in "
+        "Proofs/Lemmas/GeneratedPrelude.lean); translate/selftest_rewrites.py lists the harmless respellings of the "
+        "sources under which T, every theorem and K stay green, and changes under which they must not",
         "the theorems are over the reals (np.power -> Real.rpow, np.log -> Real.log, np.sign/np.fabs -> sign/abs); "
         "IEEE rounding is not modelled; arrays are modelled elementwise (array vs scalar agreement is checked by the oracle)",
         "RambergOsgood.stress / delta_stress: the theorem is existence + uniqueness of the exact inverse and the "
@@ -139,6 +146,16 @@ class C16(Prop):
         if not ok:
             self.translator_error = msg
         log(("translator: " + msg) if ok else ("TRANSLATOR FAILED (broken proof obligation): " + msg))
+        if not ok:
+            # the honest reading of this state: NOTHING is known about the current source through T - the theorems are about
+            # Generated/MaterialLaws.lean, which is now STALE (left as it was), so they say nothing about the code as it
+            # is, and a comparison of the stale model with the code would only measure the edit, not a violation.
+            # The correspondence run is therefore skipped (no protocol lines); the direct oracle (which needs no model)
+            # evaluates the property on the real code for this run's cases and for the extra search that a broken
+            # obligation triggers.  No failing input -> `VIOLATION ... no-failing-input-found` (the property is no longer
+            # shown to hold), with the translator's message as the reason.
+            log("the translator cannot express the current source: theorems NOT checked against it; correspondence run "
+                "SKIPPED (the generated model is stale); the property is evaluated by the direct oracle only")
 
     # ------------------------------------------------------------------ generators
     def _ro_params(self, rng):
@@ -293,10 +310,15 @@ class C16(Prop):
         return out
 
     def model_lines(self, case):
+        if self.translator_error:
+            return []              # never compare the code with a stale generated model
         return [l for l, _t, _f in self._plan(case)]
 
     def impl_lines(self, case):
         self.stats["kinds"][case["kind"]] = self.stats["kinds"].get(case["kind"], 0) + 1
+        if self.translator_error:
+            self.stats["correspondence_skipped_translator_failed"] = self.stats.get("correspondence_skipped_translator_failed", 0) + 1
+            return []
         if case["kind"] == "ro":
             b = f"{case['n']:.1f}"
             self.stats["n_hist"][b] = self.stats["n_hist"].get(b, 0) + 1
@@ -426,14 +448,35 @@ class C16(Prop):
                     return (f"lower_hysteresis accepted stress {s!r} > max_stress {m!r}", "ro-hysteresis")
                 except ValueError:
                     pass
+        # the guard is per element: ONE stress above max_stress in an array makes the call raise, none does not
+        below = [s for s in S if s <= m]
+        above = m + abs(m) + 1.0
+        try:
+            ro.lower_hysteresis(np.asarray(below + [above] + below), m)
+            return (f"lower_hysteresis accepted an array with one stress ({above!r}) above max_stress {m!r}", "ro-hysteresis")
+        except ValueError:
+            pass
+        if below:
+            va = np.asarray(ro.lower_hysteresis(np.asarray(below), m), dtype=float)
+            if va.shape != (len(below),):
+                return (f"lower_hysteresis(array of {len(below)}) has shape {va.shape}", "array-scalar")
+            for s, v in zip(below, va):
+                w = float(ro.lower_hysteresis(s, m))
+                if not core.close(float(v), w, rtol=1e-13 * TS, atol=1e-13 * TS * abs(f(m))):
+                    return (f"lower_hysteresis: array call {float(v)!r} != scalar call {w!r} at stress {s!r}", "array-scalar")
         # array = scalar
         arr = np.asarray(S)
-        for name in ("strain", "tangential_compliance", "delta_strain"):
+        for name in ("strain", "elastic_strain", "plastic_strain", "tangential_compliance", "tangential_modulus", "delta_strain"):
             va = np.asarray(getattr(ro, name)(arr), dtype=float)
+            if va.shape != arr.shape:
+                return (f"{name}(array of {len(S)}) has shape {va.shape}", "array-scalar")
             for s, v in zip(S, va):
                 w = float(getattr(ro, name)(s))
                 if not core.close(float(v), w, rtol=1e-13 * TS):
                     return (f"{name}: array call {float(v)!r} != scalar call {w!r} at stress {s!r}", "array-scalar")
+            vl = np.asarray(getattr(ro, name)(list(S)), dtype=float) if name == "strain" else va     # a plain list is array-like
+            if [f2h(x) for x in vl] != [f2h(x) for x in va]:
+                return (f"{name}: list input differs from array input", "array-scalar")
         # Newton inverse: strain(stress(e)) = e, stress(strain(s)) = s, delta_stress / delta_strain inverse
         nst = self.stats["newton"]
         targets = [(float(e), None) for e in c["strain"]] + [(f(s), s) for s in S if abs(f(s)) <= 1.0]
@@ -467,6 +510,21 @@ class C16(Prop):
                     return (f"delta_strain(delta_stress({2 * e!r})) = {back!r}", "ro-masing")
             except RuntimeError:
                 pass
+        # the user's solver tolerances are honoured (keyword-only rtol / tol), by stress and by delta_stress' defaults:
+        # a tighter request gives a value inside the tighter band; the defaults are the documented 1e-5 / 1e-6
+        for (e, _sk), ref in list(zip(targets, refs))[:3]:
+            try:
+                tight = float(ro.stress(e, rtol=1e-10, tol=1e-11))
+            except RuntimeError:
+                continue
+            if not (abs(tight - ref) <= 2.0 * (1e-11 + 1e-10 * abs(ref)) + 64 * EPS * abs(ref)):
+                return (f"stress({e!r}, rtol=1e-10, tol=1e-11) = {tight!r}: not within the requested tolerance of the inverse "
+                        f"{ref!r} (the keyword tolerances are ignored?), E={E!r} K={K!r} n={n!r}", "ro-newton-tolerance")
+            try:
+                if f2h(float(ro.stress(e))) != f2h(float(ro.stress(e, rtol=NEWTON_RTOL, tol=NEWTON_TOL))):
+                    return (f"stress({e!r}) differs from stress({e!r}, rtol=1e-5, tol=1e-6): the default tolerances changed", "ro-newton-tolerance")
+            except RuntimeError:
+                pass
         # vectorised call: the same values, elementwise
         es = np.asarray([t[0] for t in targets], dtype=float)
         if len(es):
@@ -483,6 +541,46 @@ class C16(Prop):
                         return (f"stress(array)[e={float(e)!r}] = {float(g)!r} but the inverse of strain is {ref!r} "
                                 f"(strain(stress(e)) = {f(float(g))!r}); vectorised call returned an unconverged "
                                 f"iterate without raising, E={E!r} K={K!r} n={n!r}", "ro-newton-unconverged")
+                try:
+                    dv = np.asarray(ro.delta_stress(2.0 * es), dtype=float)
+                    for e, g, ref in zip(es, dv, refs):
+                        if not (abs(float(g) - 2 * ref) <= 2 * newton_band(ref)):
+                            return (f"delta_stress(array)[{2 * float(e)!r}] = {float(g)!r} but the doubled inverse is {2 * ref!r}",
+                                    "ro-newton-unconverged")
+                except RuntimeError:
+                    pass
+        return None
+
+    @staticmethod
+    def _array_vs_scalar(fn, point, other, what):
+        """fn(*arrays) == elementwise fn(*scalars): every argument becomes the array [point_i, other_i, point_i]; the
+        results must have that shape and, element by element, the bits of the scalar calls (only + - * / on doubles)"""
+        arrs = [np.asarray([p, o, p]) for p, o in zip(point, other)]
+        ra = fn(*arrs)
+        ra = ra if isinstance(ra, tuple) else (ra,)
+        for j, (pt, lab) in enumerate(((point, "first"), (other, "second"), (point, "third"))):
+            rs = fn(*pt)
+            rs = rs if isinstance(rs, tuple) else (rs,)
+            if len(rs) != len(ra):
+                return (f"{what}: array call returns {len(ra)} components, scalar call {len(rs)}", "array-scalar")
+            for comp, (a, sc) in enumerate(zip(ra, rs)):
+                a = np.asarray(a, dtype=float)
+                if a.shape != (3,):
+                    return (f"{what}: component {comp} of the array call has shape {a.shape}, expected (3,)", "array-scalar")
+                if not core.close(float(a[j]), float(np.asarray(sc)), rtol=1e-13 * TS):
+                    return (f"{what}: component {comp} of the array call, {lab} element = {float(a[j])!r}, scalar call = "
+                            f"{float(np.asarray(sc))!r} at {pt!r}", "array-scalar")
+        return None
+
+    def _hooke_shape_guard(self, h, k, what):
+        """components of different shapes are rejected (the documented ValueError), whether or not numpy could broadcast them"""
+        for bad in ([np.zeros(2)] + [np.zeros(3)] * (k - 1), [np.zeros(2)] + [0.0] * (k - 1)):
+            for meth in ("stress", "strain"):
+                try:
+                    getattr(h, meth)(*bad)
+                except ValueError:
+                    continue
+                return (f"{what}.{meth} accepted components of different shapes {[np.shape(b) for b in bad]!r}", "array-scalar")
         return None
 
     def _oracle_hooke(self, c):
@@ -493,6 +591,10 @@ class C16(Prop):
             x = c["s"][0]
             if abs(float(h.stress(h.strain(x))) - x) > 4 * EPS * abs(x) or abs(float(h.strain(h.stress(c["e"][0]))) - c["e"][0]) > 4 * EPS * abs(c["e"][0]):
                 return (f"1D round trip fails at {x!r}", "hooke-roundtrip")
+            for meth, pt in (("stress", c["e"]), ("strain", c["s"])):
+                res = self._array_vs_scalar(getattr(h, meth), pt, [-0.37 * pt[0]], f"HookesLaw1d.{meth}")
+                if res is not None:
+                    return res
             return None
         valid = -1 <= nu <= 0.5
         classes = [H.HookesLaw2dPlaneStress, H.HookesLaw2dPlaneStrain, H.HookesLaw3d]
@@ -520,6 +622,17 @@ class C16(Prop):
 
         def vec(t):
             return [float(np.asarray(x)) for x in t]
+
+        # array = scalar (all components, both directions) and the shape guard, for the law of this case
+        h = {"ps": ps, "pe": pe, "3d": h3}[var]
+        for meth, pt in (("stress", c["e"]), ("strain", c["s"])):
+            other = [-0.37 * x for x in reversed(pt)]
+            res = self._array_vs_scalar(getattr(h, meth), pt, other, f"{type(h).__name__}.{meth}")
+            if res is not None:
+                return res
+        res = self._hooke_shape_guard(h, len(c["e"]), type(h).__name__)
+        if res is not None:
+            return res
 
         if var == "3d":
             e, s = c["e"], c["s"]
@@ -591,6 +704,15 @@ class C16(Prop):
             va = np.asarray(T.true_strain(np.asarray([e, e])), dtype=float)
             if not core.close(float(va[0]), t, rtol=1e-14 * TS):
                 return (f"true_strain: array call differs from scalar call at {e!r}", "array-scalar")
+        e0, e1 = c["e"][0], c["e"][1]
+        s0, s1 = c["s"][0], c["s"][1]
+        z0, z1 = c["Z"][0], c["Z"][1]
+        for fn, pt, other, what in ((T.true_strain, [e0], [e1], "true_strain"), (T.true_stress, [s0, e0], [s1, e1], "true_stress"),
+                                    (T.true_fracture_strain, [z0], [z1], "true_fracture_strain"),
+                                    (T.true_fracture_stress, [c["F"], c["A"], z0], [0.5 * c["F"], 2.0 * c["A"], z1], "true_fracture_stress")):
+            res = self._array_vs_scalar(fn, pt, other, what)
+            if res is not None:
+                return res
         for z in c["Z"]:
             t = float(T.true_fracture_strain(z))
             if abs(-math.expm1(-t) - z) > 8 * EPS * (1 + abs(z)):
